@@ -112,6 +112,79 @@ type cacheModel struct {
 	callbacks map[*types.Var]string // set-once function fields (calling them is a guarded event)
 	setOnce   map[*types.Var]string
 	storeIfc  *types.Named
+	// lockHelpers: methods of Cache written for `defer c.lock()()` — they lock the receiver's mutex, do nothing
+	// else, and return the bound Unlock of that same mutex
+	lockHelpers map[*ssa.Function]bool
+}
+
+// findLockHelpers recognises the `defer c.lock()()` idiom's helper: a method on *Cache whose body is exactly
+// "Lock the receiver's mutex; return its Unlock as a method value".
+func (m *cacheModel) findLockHelpers(fns []*ssa.Function) {
+	m.lockHelpers = map[*ssa.Function]bool{}
+	for _, fn := range fns {
+		if fn.Parent() != nil || fn.Blocks == nil || len(fn.Blocks) != 1 || len(fn.Params) != 1 || fn.Signature.Recv() == nil || !isNamedOrigin(fn.Params[0].Type(), m.cacheT) {
+			continue
+		}
+		if _, isPtr := fn.Params[0].Type().Underlying().(*types.Pointer); !isPtr {
+			continue
+		}
+		res := fn.Signature.Results()
+		if res.Len() != 1 {
+			continue
+		}
+		if sg, ok := res.At(0).Type().Underlying().(*types.Signature); !ok || sg.Params().Len() != 0 || sg.Results().Len() != 0 {
+			continue
+		}
+		onMu := func(v ssa.Value) bool {
+			fa, ok := v.(*ssa.FieldAddr)
+			if !ok || fa.X != ssa.Value(fn.Params[0]) {
+				return false
+			}
+			_, f := fieldVarOf(fa)
+			return sameField(f, m.mu)
+		}
+		nLock, nRet, good := 0, 0, true
+		for _, in := range fn.Blocks[0].Instrs {
+			switch x := in.(type) {
+			case *ssa.FieldAddr:
+				if !onMu(x) {
+					good = false
+				}
+			case *ssa.Call:
+				if isMutexMethod(&x.Call, "Lock") && len(x.Call.Args) == 1 && onMu(x.Call.Args[0]) && nRet == 0 {
+					nLock++
+				} else {
+					good = false
+				}
+			case *ssa.MakeClosure:
+				w, ok := x.Fn.(*ssa.Function)
+				if !ok || !strings.HasSuffix(w.Name(), "$bound") || len(x.Bindings) != 1 || !onMu(x.Bindings[0]) {
+					good = false
+					break
+				}
+				unl := false
+				allInstrs(w, func(in2 ssa.Instruction) {
+					if ci, ok := in2.(ssa.CallInstruction); ok && isMutexMethod(ci.Common(), "Unlock") {
+						unl = true
+					}
+				})
+				if !unl {
+					good = false
+				}
+			case *ssa.Return:
+				nRet++
+				if _, ok := x.Results[0].(*ssa.MakeClosure); !ok || nLock != 1 {
+					good = false
+				}
+			case *ssa.DebugRef:
+			default:
+				good = false
+			}
+		}
+		if good && nLock == 1 && nRet == 1 {
+			m.lockHelpers[origin(fn)] = true
+		}
+	}
 }
 
 func isNamedOrigin(t types.Type, n *types.Named) bool {
@@ -209,6 +282,29 @@ func (m *cacheModel) isLockOp(in ssa.Instruction) (op string, ok bool) {
 		return "", false
 	}
 	c := ci.Common()
+	// the `defer c.lock()()` idiom: the helper's call is the Lock, the deferred call of its result the Unlock
+	if len(m.lockHelpers) > 0 {
+		if call, isPlain := in.(*ssa.Call); isPlain && !c.IsInvoke() {
+			if cal := c.StaticCallee(); cal != nil && m.lockHelpers[origin(cal)] && len(c.Args) == 1 {
+				if isLocalCopy(c.Args[0]) {
+					return "Lock on a copy of the cache", true
+				}
+				_ = call
+				return "Lock", true
+			}
+		}
+		if inner, ok := c.Value.(*ssa.Call); ok && !c.IsInvoke() {
+			if cal := inner.Call.StaticCallee(); cal != nil && m.lockHelpers[origin(cal)] {
+				if _, isDefer := in.(*ssa.Defer); isDefer {
+					return "defer Unlock", true
+				}
+				if _, isGo := in.(*ssa.Go); isGo {
+					return "go Unlock", true
+				}
+				return "Unlock", true
+			}
+		}
+	}
 	for _, name := range []string{"Lock", "Unlock", "TryLock", "RLock", "RUnlock"} {
 		if isMutexMethod(c, name) && len(c.Args) > 0 {
 			if fa, ok := c.Args[0].(*ssa.FieldAddr); ok {
@@ -518,9 +614,15 @@ func runC09(c *Ctx) {
 	c.Extra["callback_fields"] = mapVals(m.callbacks)
 
 	fns := P.PkgFuncs("cache")
+	m.findLockHelpers(fns)
 	// Which functions touch guarded state or lock ops?
 	touches := map[*ssa.Function]bool{}
 	for _, fn := range fns {
+		if m.lockHelpers[origin(fn)] {
+			c.sawFn(fnName(fn))
+			c.ok("R-LOCK-WHOLE", fnName(fn)+":lock helper", fn.Pos(), "locks the receiver's mutex and returns its Unlock, nothing else (the `defer c.lock()()` idiom): its call is read as the Lock, the deferred call of its result as the deferred Unlock")
+			continue
+		}
 		allInstrs(fn, func(in ssa.Instruction) {
 			if _, ok := m.guardedEventOf(in); ok {
 				touches[fn] = true
